@@ -975,6 +975,9 @@ def analyse(chk):
                                                why='the C integral kernels must have the exponent degree that SPEC_USPS declares for their spec'))
     chk.guard(lambda c_: core.include_findings(c_, 'C13', files=['ciderpress/dft/settings.py'], rules=['compose', 'emit-order'],
                                                why='the recommended normaliser list must be ordered like the declared scaling powers for the normalised powers to vanish'))
+    chk.guard(lambda c_: core.include_findings(c_, 'C02', files=['ciderpress/dft/plans.py'], rules=['inverse-pair'],
+                                               why='the exponent the plan actually interpolates at scales as lambda^2 only if exponent -> ladder index -> knot '
+                                                   'index -> clip compose to the identity over the declared range'))
 
 
 def mutants(tree):
@@ -1019,6 +1022,8 @@ def mutants(tree):
                "/ sum ** (0.5 * (5 - n))\n                * gamma(0.5 * (5 - n))\n                for n in settings.pows[:n1t]",
                "/ sum ** (0.5 * (3 - n))\n                * gamma(0.5 * (5 - n))\n                for n in settings.pows[:n1t]",
                expect="sdmx-deg"),
+        Mutant("derivative of the knot index not rescaled with the index", PL,
+               "            derivi[:] *= (self._spline_size - 1) / (self.nalpha - 1)\n", "", expect="via-C02"),
         Mutant("SDMXIntPlan l=1 weights use n instead of n-2", PL, "all_n.append(n - 2)", "all_n.append(n)", expect="sdmx-deg"),
         Mutant("SADMPlan fit: vals not normalised", PL, "            vals *= self.alpha_norms[None, :]\n            self.fit_matrix = np.linalg.solve(vals.T, LJ).T",
                "            self.fit_matrix = np.linalg.solve(vals.T, LJ).T", expect="sdmx-deg"),
